@@ -763,6 +763,23 @@ func famKept(requested, l string) bool {
 	return famLevelRank(l) <= famLevelRank(requested)
 }
 
+// famJSONRoundTrip is what a map[string]string is after encoding/json has carried it: invalid
+// UTF-8 bytes become U+FFFD (library behaviour, asked of the library itself).
+func famJSONRoundTrip(m map[string]string) map[string]string {
+	if len(m) == 0 {
+		return m
+	}
+	raw, err := json.Marshal(m)
+	if err != nil {
+		panic(err)
+	}
+	out := map[string]string{}
+	if err := json.Unmarshal(raw, &out); err != nil {
+		panic(err)
+	}
+	return out
+}
+
 // famExtrasMap is the Go map a KV list denotes (last write wins).
 func famExtrasMap(kvs []vgirpc.KV) map[string]string {
 	m := map[string]string{}
@@ -777,7 +794,7 @@ func famExtrasMap(kvs []vgirpc.KV) map[string]string {
 var famLevels = []string{"EXCEPTION", "ERROR", "WARN", "INFO", "DEBUG", "TRACE"}
 
 func famRandText(r *Rng) string {
-	switch r.Intn(9) {
+	switch r.Intn(16) {
 	case 0:
 		return ""
 	case 1:
@@ -794,6 +811,18 @@ func famRandText(r *Rng) string {
 		return "x" + strconv.Itoa(r.Intn(1000))
 	case 7:
 		return string(rune(0x1F600+r.Intn(40))) + " emoji"
+	case 8: // every C0 control character, DEL, the JSON-special bytes
+		return "\x00\x01\x02\a\b\t\n\v\f\r\x0e\x1b\x1f\x7f\"\\/"
+	case 9: // one control character in ordinary text
+		return "ctl" + string(rune(r.Intn(0x20))) + "end" + Pick(r, []string{"", "\x7f", "\x1f"})
+	case 10: // line/paragraph separators, BOM, replacement char, a non-BMP rune, C1 controls
+		return "sep\u2028\u2029\ufeff\ufffd\U0010ffff\u0085\u009f"
+	case 11: // invalid UTF-8: stray bytes, bad continuation, surrogate, overlong, truncated
+		return Pick(r, []string{"a\xff\xfeb", "\xc3(", "\xed\xa0\x80", "\xc0\xaf", "tail\xe2\x82", "\xf4\x90\x80\x80", "\x80"})
+	case 12: // arbitrary bytes from the whole range
+		return string(r.Bytes(r.Range(1, 24)))
+	case 13: // very long
+		return strings.Repeat("0123456789abcdef\x01\"", r.Range(100, 400))
 	default:
 		n := r.Range(1, 12)
 		b := make([]byte, n)
@@ -802,6 +831,13 @@ func famRandText(r *Rng) string {
 		}
 		return string(b)
 	}
+}
+
+// famRandKey draws an extras key: any VALID UTF-8 text incl. control characters (two different
+// invalid keys would collapse into one after the JSON round trip, which the model does not follow).
+func famRandKey(r *Rng) string {
+	return Pick(r, []string{"a", "b", "k", "K", "", "zz", "ключ", "a b", "user.id", "a",
+		"\x00", "\x01\x1f", "tab\there", "q\"uote", "back\\slash", "\x7f", "\u2028", "\u2029k", "<&>", "\a\v", strings.Repeat("k", 300)})
 }
 
 func famRandLevel(r *Rng) string {
